@@ -2,6 +2,8 @@ package main
 
 import (
 	"fmt"
+	"os"
+	"runtime/debug"
 	"sort"
 	"strings"
 
@@ -39,6 +41,7 @@ func (x *Exec) runOnce(dec []Dec, concrete map[string]string) (out abortSig, pr 
 	x.concrete = concrete
 	x.ctxN = 0
 	x.decided = map[string]bool{}
+	x.gapMemo = nil
 	x.seqLocks, x.wg, x.atomicPtr, x.lastNow, x.guards, x.ufMemo, x.goInline = nil, nil, nil, nil, nil, nil, nil
 	x.allowPanic = x.eng.spec.AllowPanic
 	x.params = x.eng.spec.Params
@@ -55,6 +58,9 @@ func (x *Exec) runOnce(dec []Dec, concrete map[string]string) (out abortSig, pr 
 				if _, isSpec := r.(specFail); isSpec {
 					a = abortSig{"INCONCLUSIVE", "speculation escaped"}
 				} else {
+					if os.Getenv("VERIF_DEBUG") != "" {
+						fmt.Fprintf(os.Stderr, "%v\n%s\n", r, debug.Stack())
+					}
 					panic(fmt.Sprintf("%v [entry %s decisions %s]", r, x.eng.spec.Name, encodeDec(x.dec[:min(x.pos, len(x.dec))])))
 				}
 			}
